@@ -50,7 +50,7 @@ func (k lkid) MarshalJSON() ([]byte, error) { return json.Marshal([]any{k.Name, 
 // lnode is the JSON form of Arca.Link.LTy.
 type lnode struct {
 	T       string `json:"t"`
-	ID      string `json:"id,omitempty"`
+	ID      string `json:"id"`
 	NS      string `json:"ns,omitempty"`
 	Item    *lnode `json:"item,omitempty"`
 	K       *lnode `json:"k,omitempty"`
@@ -169,6 +169,9 @@ func (lg *linkGen) selfRef(ids, outer []string) *lnode {
 		}
 		if len(cands) > 0 && r.Intn(3) > 0 {
 			return &lnode{T: "ref", ID: cands[r.Intn(len(cands))]}
+		}
+		if r.Intn(4) == 0 {
+			return &lnode{T: "ref", ID: ""} // a reference with no ID at all
 		}
 		return &lnode{T: "ref", ID: "Zz"}
 	}
